@@ -254,6 +254,13 @@ impl Sched<'_> {
             let g = sim.lock();
             let (g, got) = sim.wait_until(g, long_wait(), |st| st.outcome.is_some().then_some(()));
             drop(g);
+            if got.is_none() && spec.aftermath {
+                // Not promised by the property: a pool with a dead worker may also never return.
+                self.hung = true;
+                self.abnormal = true;
+                self.ctx.probe("aftermath-execute_on-did-not-return");
+                return Ok(());
+            }
             if got.is_none() {
                 self.hung = true;
                 self.abnormal = true;
@@ -667,6 +674,21 @@ impl Sched<'_> {
     fn evaluate(&mut self, idx: usize, spec: &RoundSpec, reject: bool, r: &RoundState, outcome: &Outcome) -> Result<(), Violation> {
         let n = self.n;
         let fail = |class: &str, detail: String| Err(Violation::new(class, detail));
+        if spec.aftermath {
+            // Only the use-after oracles (evaluated in `after_outcome`) apply to a run on a pool that
+            // lost workers; whether it unwinds (today: "worker thread must still exist") or works
+            // is the library's choice.
+            self.pool_dead = true;
+            self.nontrivial = true;
+            self.ctx.probe(match outcome {
+                Outcome::Unwound(_) => "aftermath-round-refused",
+                Outcome::Returned(_) => "aftermath-round-returned",
+            });
+            if r.th.iter().any(|t| t.seen) {
+                self.ctx.probe("aftermath-round-ran-callbacks");
+            }
+            return Ok(());
+        }
         if reject {
             let any_seen = r.th.iter().any(|t| t.seen);
             return match outcome {
@@ -865,8 +887,15 @@ pub fn run_scenario(sc: &ParScenario, ctx: &mut Ctx) -> Result<bool, Violation> 
     }
     if result.is_ok() {
         for (idx, spec) in sc.rounds.iter().enumerate() {
+            // After a round in which callbacks panicked only an `aftermath` round is run.
+            if s.pool_dead && !spec.aftermath {
+                break;
+            }
+            if spec.aftermath && !s.pool_dead {
+                continue;
+            }
             result = s.round(idx, spec);
-            if result.is_err() || s.pool_dead || s.hung {
+            if result.is_err() || s.hung {
                 break;
             }
         }
